@@ -266,6 +266,14 @@ type factSet struct {
 	// sha256 of the comment-free printed text of every function that holds a map-range site or is modelled by hand for
 	// C11; a changed fingerprint is reported in the evidence and raises the repetition budget, it is never a verdict
 	Fingerprints map[string]string `json:"fingerprints"`
+	// site inventories of the evaluator (sites.go): Generated/FrameSites.lean, CopySites.lean, OperatorDispatch.lean
+	FrameSites       []frameSite     `json:"frameSites"`
+	CopySites        []copySite      `json:"copySites"`
+	OperatorDispatch []dispatchEntry `json:"operatorDispatch"`
+	FramePrimitives  []dispatchEntry `json:"framePrimitives"`
+	SiteFuncsScanned int             `json:"siteFuncsScanned"`
+	// failed regenerations of this scan (the previous Lean file of that table was kept)
+	ExtractFailures []string `json:"extractFailures"`
 }
 
 var c11ModelledFuncs = map[string]bool{"compareLogicXEQ": true, "CompareValues": true, "NewObject": true,
@@ -284,11 +292,18 @@ func fingerprint(fd *ast.FuncDecl) string {
 
 // factsStamp: hash of every scanned source file (name + content). Type-checking net/http from source costs ~10 s, so the
 // scan is skipped when neither the sources nor the generated file changed since the last successful scan.
-const factsVersion = "facts-v6"
+const factsVersion = "facts-v7"
 
 func factsStamp() string {
 	h := sha256.New()
 	h.Write([]byte(factsVersion))
+	// the extractor itself: a rebuilt znextract rescans (the scan's logic may have changed)
+	if exe, err := os.Executable(); err == nil {
+		if b, err := os.ReadFile(exe); err == nil {
+			x := sha256.Sum256(b)
+			h.Write(x[:])
+		}
+	}
 	for _, rel := range factPkgs {
 		ents, _ := os.ReadDir(filepath.Join(*repo, rel))
 		for _, e := range ents {
@@ -314,12 +329,20 @@ func fileHash(p string) string {
 
 func genFacts() {
 	leanPath := filepath.Join(*outDir, "Facts.lean")
+	// every Lean file this scan writes: an edited or missing one is regenerated
+	outHashes := func() string {
+		h := fileHash(leanPath)
+		for _, n := range []string{"FrameSites.lean", "CopySites.lean", "OperatorDispatch.lean"} {
+			h += " " + fileHash(filepath.Join(*outDir, n))
+		}
+		return h
+	}
 	stampPath := ""
 	stamp := ""
 	if *facts != "" {
 		stampPath = *facts + ".stamp"
 		stamp = factsStamp()
-		if old, err := os.ReadFile(stampPath); err == nil && string(old) == stamp+" "+fileHash(leanPath)+" "+fileHash(*facts) {
+		if old, err := os.ReadFile(stampPath); err == nil && string(old) == stamp+" "+outHashes()+" "+fileHash(*facts) {
 			return
 		}
 	}
@@ -471,11 +494,14 @@ func genFacts() {
 	sb.WriteString(footer("Facts"))
 	writeIfChanged(leanPath, sb.String())
 
+	// the evaluator's site inventories, from the same type-checked packages
+	scanEvalSites(zi, &fs)
+
 	if *facts != "" {
 		b, _ := json.MarshalIndent(fs, "", " ")
 		writeIfChanged(*facts, string(b)+"\n")
 		if len(failures) == nfail {
-			os.WriteFile(stampPath, []byte(stamp+" "+fileHash(leanPath)+" "+fileHash(*facts)), 0o644)
+			os.WriteFile(stampPath, []byte(stamp+" "+outHashes()+" "+fileHash(*facts)), 0o644)
 		} else {
 			os.Remove(stampPath)
 		}
